@@ -31,6 +31,7 @@
 -/
 import AriadneModel.Proofs.C08Package
 import AriadneModel.Proofs.C08NoKeyError
+import AriadneModel.Proofs.C08Acyclic
 
 set_option linter.unusedVariables false
 
@@ -77,7 +78,7 @@ theorem mixin_criterion (env : Env) (fuel : Nat) (cn T : String) (sid : Nat) (se
     (h : parseTypeDefinition env fuel cn T sid sel a eb tv st = .ok (cs, st')) :
     ∃ c rest, cs = c :: rest ∧ c.name = cn ∧ pascal f.name ∈ c.bases ∧
       ∀ t : ClassTable, basesOf t cn = some c.bases → IsSubclass t cn (pascal f.name) := by
-  obtain ⟨x, st1, resolved, acc, fuel', _, hres, _, hcs⟩ := parseTypeDefinition_unfold _ _ _ _ _ _ _ _ _ _ _ _ h hfresh
+  obtain ⟨x, st1, resolved, acc, fuel', _, hres, _, hcs, _⟩ := parseTypeDefinition_unfold _ _ _ _ _ _ _ _ _ _ _ _ h hfresh
   have hm := (resolve_spread_mem env fuel sel T _ x st1 f.name dirs f hmem q.defined q.not_unpacked hres).1
   refine ⟨_, _, hcs, rfl, pascal_mem_classBases hm, fun t ht => IsSubclass.of_base ht (pascal_mem_classBases hm)⟩
 
@@ -141,6 +142,27 @@ theorem topo_respects_deps (e : Order.EnumOracle) (he : Order.EnumOK e) (env : E
     fragments_load e he env fuel names marks fo h rk hrk,
     fun n hn hgood => fragments_emitted e he env fuel names marks fo h n hn hgood⟩
 
+/-- the input-level hypothesis behind `Acyclic`: the document's fragment spreads admit a rank that strictly
+    decreases from a fragment to every fragment spread inside its selection set.  This is graphql-core's validation
+    rule NoFragmentCycles, which `get_graphql_queries` runs before any generator sees the document. -/
+def NoFragmentCycles (env : Env) : Prop := ∃ rk : String → Nat, SpreadRank env rk
+
+/-- (must) a fragment's generator records only fragments that are spread — directly or through other fragments —
+    from its own selection set: the dependency dict of the fragments module inherits acyclicity from the document. -/
+theorem deps_acyclic_of_valid (e : Order.EnumOracle) (env : Env) (hv : NoFragmentCycles env) (fuel : Nat) (names : List String)
+    (marks : List Nat) (fo : FragmentsOut) (h : generateFragments e env fuel names marks = .ok fo) : Acyclic fo.deps := by
+  obtain ⟨rk, hrk⟩ := hv
+  exact ⟨rk, deps_acyclic e env rk hrk fuel names marks fo h⟩
+
+/-- `topo_respects_deps` from the input-level hypothesis alone -/
+theorem topo_respects_deps_valid (e : Order.EnumOracle) (he : Order.EnumOK e) (env : Env) (hv : NoFragmentCycles env)
+    (fuel : Nat) (names : List String) (marks : List Nat) (fo : FragmentsOut)
+    (h : generateFragments e env fuel names marks = .ok fo) :
+    (∀ pre n post, fo.order = pre ++ n :: post → ∀ m, m ∈ Order.depsOf fo.deps n → m ∈ pre) ∧
+    Loads (external fo) (classTable fo.classes) :=
+  let t := topo_respects_deps e he env fuel names marks fo (deps_acyclic_of_valid e env hv fuel names marks fo h) h
+  ⟨t.1, t.2.1⟩
+
 /-! ## 3. `@mixin(from:, import:)` -/
 
 /-- (must) **`_get_extra_bases_from_mixin_directives`, exactly**: the extra bases of a node are the `import`
@@ -159,7 +181,7 @@ theorem extra_bases_appended (env : Env) (fuel : Nat) (cn T : String) (sid : Nat
     (h : parseTypeDefinition env fuel cn T sid sel a eb tv st = .ok (cs, st')) :
     ∃ c rest fragPart frs, cs = c :: rest ∧ c.name = cn ∧ c.bases = fragPart ++ eb ∧
       (fragPart = ["BaseModel"] ∨ fragPart = (sortStr frs).map pascal) := by
-  obtain ⟨x, st1, resolved, acc, fuel', _, hres, _, hcs⟩ := parseTypeDefinition_unfold _ _ _ _ _ _ _ _ _ _ _ _ h hfresh
+  obtain ⟨x, st1, resolved, acc, fuel', _, hres, _, hcs, _⟩ := parseTypeDefinition_unfold _ _ _ _ _ _ _ _ _ _ _ _ h hfresh
   obtain ⟨fp, hfp, hor⟩ := classBases_suffix x.2 eb
   exact ⟨_, _, fp, x.2, hcs, rfl, hfp, hor⟩
 
@@ -220,6 +242,62 @@ theorem field_extra_bases_reach_every_related_class (env : Env) (fuel : Nat) (si
           let cs ← parseTypeDefinition env fuel rc.1 rc.2 sid sel ctx.abstract eb
             (((typenameValues env ctx.related).find? (·.1 == rc.2)).map (·.2) |>.getD [])
           pure (ForInStep.yield (acc ++ cs))) >>= fun s => pure s) := rfl
+
+/-- the two lists have the same length and are related position by position -/
+inductive ForAll2 {α β : Type} (R : α → β → Prop) : List α → List β → Prop
+  | nil : ForAll2 R [] []
+  | cons {a : α} {b : β} {l₁ : List α} {l₂ : List β} : R a b → ForAll2 R l₁ l₂ → ForAll2 R (a :: l₁) (b :: l₂)
+
+/-- what one related class of a field contributes: nothing (a class of that name exists already) or a class list
+    headed by the class of that name whose bases are its fragment bases followed by exactly `eb` -/
+def RelatedSegment (eb : List String) (rc : String × String) (seg : List ClassDecl) : Prop :=
+  seg = [] ∨ ∃ c rest fragPart frs, seg = c :: rest ∧ c.name = rc.1 ∧ c.bases = fragPart ++ eb ∧
+    (fragPart = ["BaseModel"] ∨ fragPart = (sortStr frs).map pascal)
+
+theorem related_loop (env : Env) (fuel : Nat) (sid : Nat) (sel : List Selection) (ctx : Ctx) (eb : List String) :
+    ∀ (l : List (String × String)) (acc : List ClassDecl) (s : St) (acc' : List ClassDecl) (s' : St),
+      forIn l acc (relatedBody env fuel sid sel ctx eb) s = .ok (acc', s') →
+      ∃ segs : List (List ClassDecl), acc' = acc ++ segs.flatten ∧ ForAll2 (RelatedSegment eb) l segs
+  | [], acc, s, acc', s', h => by
+    rw [List.forIn_nil] at h
+    obtain ⟨e1, _⟩ := (ok_pure _ _ _ _).mp h
+    exact ⟨[], by simp [e1], ForAll2.nil⟩
+  | rc :: l, acc, s, acc', s', h => by
+    rw [List.forIn_cons] at h
+    obtain ⟨r, s1, h1, h2⟩ := (ok_bind _ _ _ _ _).mp h
+    unfold relatedBody at h1
+    obtain ⟨cs1, s2, h3, h4⟩ := (ok_bind _ _ _ _ _).mp h1
+    obtain ⟨e3, e4⟩ := (ok_pure _ _ _ _).mp h4
+    subst e3 e4
+    obtain ⟨segs, hacc, hall⟩ := related_loop env fuel sid sel ctx eb l _ _ acc' s' h2
+    have hseg : RelatedSegment eb rc cs1 := by
+      cases hseen : s.publicNames.contains rc.1 with
+      | true => exact Or.inl (parseTypeDefinition_seen _ _ _ _ _ _ _ _ _ _ _ _ h3 hseen).1
+      | false =>
+        obtain ⟨c, rest, fp, frs, hcs, hn, hb, hor⟩ := extra_bases_appended _ _ _ _ _ _ _ _ _ _ _ _ hseen h3
+        exact Or.inr ⟨c, rest, fp, frs, hcs, hn, hb, hor⟩
+    exact ⟨cs1 :: segs, by rw [hacc]; simp [List.append_assoc], ForAll2.cons hseg hall⟩
+
+/-- (must) **the extra bases of a field reach EVERY related class, exactly**: the classes generated for a field's
+    selection set split into one segment per related class (in order); each segment is empty (the class name was
+    generated before) or starts with the class of that name, whose bases are its fragment bases followed by
+    exactly the field's extra bases. -/
+theorem mixin_on_field_every_related_class (env : Env) (fuel : Nat) (sid : Nat) (sel : List Selection) (ctx : Ctx)
+    (eb : List String) (st : St) (cs : List ClassDecl) (st' : St) (hsel : sel.isEmpty = false)
+    (h : parseFieldSelectionSetTypes env fuel sid sel ctx eb st = .ok (cs, st')) :
+    ∃ segs : List (List ClassDecl), cs = segs.flatten ∧ ForAll2 (RelatedSegment eb) ctx.related segs := by
+  cases fuel with
+  | zero =>
+    rw [parseFieldSelectionSetTypes_zero] at h
+    exact ((ok_err _ _ _).mp h).elim
+  | succ fuel =>
+    rw [parseFieldSelectionSetTypes_succ, hsel] at h
+    simp only [Bool.false_eq_true, if_false] at h
+    obtain ⟨acc, s1, h1, h2⟩ := (ok_bind _ _ _ _ _).mp h
+    obtain ⟨e1, e2⟩ := (ok_pure _ _ _ _).mp h2
+    subst e1 e2
+    obtain ⟨segs, hacc, hall⟩ := related_loop env fuel sid sel ctx eb ctx.related [] st acc s1 h1
+    exact ⟨segs, by simpa using hacc, hall⟩
 
 /-! ## 4. The package-level clauses: full statement, findings, partial theorem -/
 
@@ -355,22 +433,18 @@ def Supported_08 (e : Order.EnumOracle) (env : Env) (fuel : Nat) (ops : List Ope
   ¬ (trigUnpackedAndInherited e env fuel ops = true ∨ trigMroConflict e env fuel ops = true ∨
      trigSiblingUnpacks e env fuel ops = true)
 
-/-- named extra hypothesis (not a finding): the dependency dict of the emitted fragments module is acyclic.
-    Implied by GraphQL validation; validated by the harness on every case; not derived in Lean. -/
-def Proved_08 (out : PackageOut) : Prop := ∀ fo, out.fragments = some fo → Acyclic fo.deps
-
 theorem addOperations_from (env : Env) (fuel : Nat) (ops : List Operation) (acc : OpsOut)
     (h : addOperations env fuel ops = .ok acc) : ∀ g ∈ acc.ops, FromOperation env fuel g :=
   addOperationsFrom_spec env fuel ops {} acc h (fun g hg => by cases hg)
 
-/-- **C08 outside the finding triggers**: for every enumeration oracle, schema, fragments, operations (any number, any
-    order) for which generation succeeds: every fragment an operation class inherits from has its class in the
+/-- **C08 outside the finding triggers**: for every enumeration oracle, schema, validated document (no fragment cycles;
+    any number of fragments and operations, in any order) for which generation succeeds: every fragment an operation class inherits from has its class in the
     emitted fragments module; that module's class statements all find their bases bound, in the emitted order;
     every base of every operation class is `BaseModel`, an imported `@mixin` class or such a fragment class; and
     CPython can linearise every class of every module. -/
 theorem C08_partial (e : Order.EnumOracle) (he : Order.EnumOK e) (env : Env) (fuel : Nat) (ops : List Operation)
     (out : PackageOut) (h : fragmentsModule e env fuel ops = .ok out)
-    (hs : Supported_08 e env fuel ops) (hp : Proved_08 out) :
+    (hv : NoFragmentCycles env) (hs : Supported_08 e env fuel ops) :
     (∀ g ∈ out.ops, ∀ n ∈ g.out.st.mixins, ∃ fo, out.fragments = some fo ∧ pascal n ∈ fo.classes.map (·.name)) ∧
     (∀ fo, out.fragments = some fo → Loads (external fo) (classTable fo.classes)) ∧
     (∀ g ∈ out.ops, ∀ c ∈ g.out.classes, ∀ b ∈ c.bases,
@@ -424,12 +498,12 @@ theorem C08_partial (e : Order.EnumOracle) (he : Order.EnumOK e) (env : Env) (fu
     · exact ⟨fo, hfo, fragments_emitted e he env fuel _ acc.marks fo hgf n ((he _).mem_iff.mpr hrem) hgood⟩
   · -- the fragments module loads
     intro fo hfo
-    obtain ⟨rk, hrk⟩ := hp fo hfo
     rcases hcase with ⟨_, hnone⟩ | ⟨_, fo', hgf, hfo'⟩
     · rw [hnone] at hfo; cases hfo
     · rw [hfo'] at hfo
       injection hfo with hfo
       subst hfo
+      obtain ⟨rk, hrk⟩ := deps_acyclic_of_valid e env hv fuel _ acc.marks fo' hgf
       exact fragments_load e he env fuel _ acc.marks fo' hgf rk hrk
   · intro g hg
     rw [hops] at hg
@@ -505,6 +579,13 @@ example : (match fragmentsModule id okEnv 10 [okC, wB] with
 
 example : trigUnpackedAndInherited id okEnv 10 [okC, wB] = false ∧ trigMroConflict id okEnv 10 [okC, wB] = false
     ∧ trigSiblingUnpacks id okEnv 10 [okC, wB] = false := by decide
+
+example : NoFragmentCycles okEnv := ⟨fun _ => 0, by
+  intro n f hf m hm
+  unfold findFragment? at hf
+  have hmem := List.mem_of_find?_eq_some hf
+  simp only [okEnv, List.mem_cons, List.not_mem_nil, or_false] at hmem
+  rcases hmem with rfl | rfl <;> simp [wAF, wDF, selsSpreads, selSpreads] at hm⟩
 
 example : Acyclic [("AF", []), ("DF", [])] := ⟨fun _ => 0, by
   intro n ds m hl hm
